@@ -4,6 +4,9 @@ Metamorphic monitor over pairs of recorded executions that differ only by the in
 containment invariants at the step hooks of end-to-end runs."""
 from __future__ import annotations
 
+import json
+import os
+
 import numpy as np
 
 from pvmon import gen, pipes, trace
@@ -20,7 +23,7 @@ RULE = (
 ASSUMPTIONS = ["with cbca only the scalar-nesting relation is claimed (NaN-ed neighbours legitimately change aggregated sums)"]
 GATES = {
     "nested_scalar_pairs": 10, "grid_of_equal_width_intervals": 1, "nested_with_cbca": 2, "grid_vs_hull": 5, "constant_grid_vs_scalar": 3, "point_inner_interval": 1,
-    "end_to_end_pipelines": 10, "grid_on_a_scene_spanning_blocks_of_100": 2, "nested_with_a_confidence_step": 3, "interval_excluding_0_with_filling": 2, "interval_excluding_0": 5, "filled_pixels_contained": 1, "costs_compared": 50000, "pixels_contained": 5000,
+    "end_to_end_pipelines": 10, "right_image_with_its_own_interval": 1, "grid_on_a_scene_spanning_blocks_of_100": 2, "nested_with_a_confidence_step": 3, "interval_excluding_0_with_filling": 2, "interval_excluding_0": 5, "filled_pixels_contained": 1, "costs_compared": 50000, "pixels_contained": 5000,
 }
 INVALID = 0b1111000011
 
@@ -195,11 +198,12 @@ def _e2e(case, ctx):
                   "filter": {"filter_method": "median", "filter_size": 3},
                   "refinement": {"refinement_method": ["vfit", "quadratic"][case["part"] % 2]}}
     else:
-        keys, params, info = pipes.random_pipeline(rng, rows, cols, max_post=4, allow_mfi=False, repeat_bias=0.2)
+        keys, params, info = pipes.random_pipeline(rng, rows, cols, max_post=4, allow_mfi=False, repeat_bias=0.2,
+                                                   validation=True if case["i"] in (6, 7, 8) else None)
     l, r = gen.stereo_pair(rng, rows, cols, gen.TEXTURES[int(rng.integers(0, 5))], max_shift=3)
     lm = gen.mask(rng, rows, cols, gen.MASK_KINDS[int(rng.integers(0, 9))]) if rng.random() < 0.4 else None
     rm = gen.mask(rng, rows, cols, gen.MASK_KINDS[int(rng.integers(0, 9))]) if rng.random() < 0.3 else None
-    use_grid = rng.random() < 0.4 and not directed
+    use_grid = rng.random() < 0.4 and not directed and case["i"] not in (6, 7, 8)
     ik = "far-neg" if directed else ["around", "around", "neg", "pos", "far-neg", "far-pos"][int(rng.integers(0, 6))]
     if ik == "around":
         lo, hi = -int(rng.integers(0, 5)), int(rng.integers(0, 5))
@@ -217,7 +221,16 @@ def _e2e(case, ctx):
     else:
         disp, rdisp = (lo, hi), None
     left = gen.make_dataset(l, disp, lm)
-    right = gen.make_dataset(r, rdisp, rm)
+    # the right image may carry its OWN requested interval (not the mirror of the left one), in a dataset assembled by hand
+    # without the optional disparity_source attribute
+    own_right = (not use_grid) and case["i"] in (6, 7, 8) and any(pipes.kind_of(k) == "validation" for k in keys)
+    rlo, rhi = -hi, -lo
+    if own_right:
+        rlo = -hi + int(rng.integers(1, 3))
+        rhi = max(rlo, -lo + int(rng.integers(1, 4)))
+        rdisp = (rlo, rhi)
+    right = gen.make_dataset(r, rdisp, rm, disparity_source="absent" if (own_right and case["i"] != 8) else "auto")
+    ctx.gate("right_image_with_its_own_interval", int(own_right))
     pipe = pipes.build_pipe(keys, params)
     desc = {"pipeline": keys, "params": {k: params[k] for k in keys}, "shape": [rows, cols], "disp": [lo, hi], "grid": use_grid,
             "interval": ik, "masks": [lm is not None, rm is not None]}
@@ -255,6 +268,15 @@ def _e2e(case, ctx):
                 ctx.violation("valid-disparity-outside-pixel-interval",
                               f"after {ev['step_key']}: pixel {i.tolist()} disparity {d[tuple(i)]} outside its interval "
                               f"[{pmin[tuple(i)]},{pmax[tuple(i)]}]", case, situation=kind, desc=desc)
+        if own_right and mm.right_disparity is not None and "disparity_map" in mm.right_disparity and kind in ("disparity", "refinement"):
+            dr = mm.right_disparity["disparity_map"].data.astype(np.float64)
+            vr = (mm.right_disparity["validity_mask"].data & INVALID) == 0
+            outr = vr & ~((dr >= rlo - 1e-6) & (dr <= rhi + 1e-6))
+            dri = mm.right_disparity["disparity_interval"].data
+            if outr.any() or dri[0] != rlo or dri[1] != rhi:
+                ctx.violation("right-interval-not-honoured",
+                              f"after {ev['step_key']}: right map searched {dri.tolist()}, requested [{rlo},{rhi}]; {int(outr.sum())} valid pixels outside",
+                              case, situation=kind, desc=desc)
         if kind == "disparity":
             di = mm.left_disparity["disparity_interval"].data
             cd = mm.left_cv.coords["disp"].data
